@@ -308,7 +308,7 @@ class IDRefSource(Source):
     @staticmethod
     def load(collada, localscope, node):
         sourceid = node.get('id')
-        arraynode = node.find(tag('IDREF_array'))
+        arraynode = node.find(collada.tag('IDREF_array'))
         if arraynode is None:
             raise DaeIncompleteError('No IDREF_array in source node')
         if arraynode.text is None or arraynode.text.isspace():
@@ -415,7 +415,7 @@ class NameSource(Source):
     @staticmethod
     def load(collada, localscope, node):
         sourceid = node.get('id')
-        arraynode = node.find(tag('Name_array'))
+        arraynode = node.find(collada.tag('Name_array'))
         if arraynode is None:
             raise DaeIncompleteError('No Name_array in source node')
         if arraynode.text is None or arraynode.text.isspace():
@@ -426,8 +426,7 @@ class NameSource(Source):
             except ValueError:
                 raise DaeMalformedError('Corrupted Name array')
         data = numpy.array(values, dtype=numpy.str_)
-        paramnodes = node.findall('%s/%s/%s' % (tag('technique_common'), tag('accessor'), tag
-                                                ('param')))
+        paramnodes = node.findall('%s/%s/%s' % (collada.tag('technique_common'), collada.tag('accessor'), collada.tag('param')))
         if not paramnodes:
             raise DaeIncompleteError('No accessor info in source node')
         components = [param.get('name') for param in paramnodes]
